@@ -91,7 +91,8 @@ def oracle(case):
             cls.append('degenerate-fitted-marginal')
             continue
         usable.append(j)
-        dist = vs.ks_distance(X[:, j], lambda x, _u=uni: np.asarray(_u.cdf(np.asarray(x, dtype=float)), dtype=float))
+        # compared at the floating-point resolution of x = loc + scale*z (degenerate MLE fits put visible mass there)
+        dist = vs.ks_excess_at_resolution(X[:, j], lambda x, _u=uni: np.asarray(_u.cdf(np.asarray(x, dtype=float)), dtype=float), vs.resolution_of(uni))
         worst = max(worst, dist / eps)
         require(dist <= eps + 2 * EPS32, 'column %r of sample(%d) does not follow its fitted marginal %s: KS %.4f > band %.4f'
                 % (names[j], n, type(getattr(uni, '_instance', None) or uni).__name__, dist, eps), tag='marginal')
